@@ -36,6 +36,18 @@ pub enum KeyForm {
     Owned,
     /// borrowed from the input: visit_borrowed_str (from_str)
     Borrowed,
+    /// the key as bytes: visit_bytes.  A hand-written impl may not support it: Err is tolerated, Ok must be right
+    Bytes,
+    /// the key as the position of the field in the written struct: visit_u64 (packed CBOR / MessagePack).
+    /// A hand-written impl may not support it: Err is tolerated, Ok must be right
+    Index,
+}
+
+impl KeyForm {
+    /// serde's derive supports it; a hand-written impl need not
+    pub fn optional(self) -> bool {
+        matches!(self, KeyForm::Bytes | KeyForm::Index)
+    }
 }
 #[derive(Clone, Copy, Debug, Serialize, Deserialize, PartialEq)]
 pub struct Presentation {
@@ -200,7 +212,7 @@ impl<'de> de::MapAccess<'de> for MapAcc<'de> {
         let i = self.order[self.pos];
         access(self.de.st, "key", &self.fields[i].0)?;
         self.pending = Some(i);
-        seed.deserialize(KeyDe { name: &self.fields[i].0, form: self.de.p.keys }).map(Some)
+        seed.deserialize(KeyDe { name: &self.fields[i].0, index: i as u64, form: self.de.p.keys }).map(Some)
     }
     fn next_value_seed<S: DeserializeSeed<'de>>(&mut self, seed: S) -> Result<S::Value, SimError> {
         let Some(i) = self.pending.take() else {
@@ -240,6 +252,8 @@ impl<'de> de::SeqAccess<'de> for SeqAcc<'de> {
 
 struct KeyDe<'de> {
     name: &'de str,
+    /// position of the field in the struct as it was written
+    index: u64,
     form: KeyForm,
 }
 
@@ -253,6 +267,8 @@ impl<'de> de::Deserializer<'de> for KeyDe<'de> {
             }
             KeyForm::Owned => v.visit_string(self.name.to_string()),
             KeyForm::Borrowed => v.visit_borrowed_str(self.name),
+            KeyForm::Bytes => v.visit_bytes(self.name.as_bytes()),
+            KeyForm::Index => v.visit_u64(self.index),
         }
     }
     serde::forward_to_deserialize_any! {
